@@ -372,6 +372,14 @@ DIRECTED = [
     ('ON ERROR RESUME NEXT\nGOSUB work\nPRINT "back"\nEND\nwork: x% = 7 + 1 \\ z%\nPRINT "w2"\nRETURN\n', ['w2', 'back'], ['halt']),
     # RESUME re-executes the whole statement after the handler repaired the cause
     ('ON ERROR GOTO zh\nGOSUB work\nPRINT "back"\nEND\nwork: PRINT 10 \\ z%\nRETURN\nzh: z% = 2\nRESUME\n', [5, 'back'], ['halt']),
+    # an error in the condition of an ELSEIF: the statement that follows it is the first statement of its branch
+    ('ON ERROR GOTO zh\nx% = 3\nGOSUB chk\nPRINT "after gosub"\nEND\nchk: IF x% = 1 THEN\nPRINT "one"\nELSEIF 10 \\ z% = 5 THEN\nPRINT "two"\n'
+     'ELSEIF x% = 3 THEN\nPRINT "three"\nELSE\nPRINT "else"\nEND IF\nPRINT "chk end"\nRETURN\nzh: PRINT "h"\nRESUME NEXT\n',
+     ['h', 'two', 'chk end', 'after gosub'], ['halt']),
+    ('ON ERROR RESUME NEXT\nx% = 3\nGOSUB chk\nPRINT "after gosub"\nEND\nchk: IF x% = 1 THEN\nPRINT "one"\nELSEIF 10 \\ z% = 5 THEN\nPRINT "two"\n'
+     'ELSE\nPRINT "else"\nEND IF\nPRINT "chk end"\nRETURN\n', ['two', 'chk end', 'after gosub'], ['halt']),
+    ('ON ERROR GOTO zh\nDIM a(3)\nFOR k% = 2 TO 9 STEP 7\nIF k% = 1 THEN\nPRINT "one"\nELSEIF a(k%) = 0 THEN\nPRINT "branch"; k%\nEND IF\nNEXT\nPRINT "end"\nEND\n'
+     'zh: PRINT "h"\nRESUME NEXT\n', ['branch', 'h', 'branch', 'end'], ['halt']),
     # the statement at the very start of the text fails
     ('x% = 1 \\ z%\nPRINT "after"\n', [], ['trap', 'DIVISION_BY_ZERO']),
     ('ON ERROR GOTO zh: x% = 1 \\ z%: PRINT "same line"\nPRINT "after"\nEND\nzh: PRINT "h"\nRESUME NEXT\n', ['h', 'same line', 'after'], ['halt']),
